@@ -278,7 +278,14 @@ func runSCIONServer(ctx context.Context, log *slog.Logger, mtrcs *scionServerMet
 				e2eLayer = slayers.EndToEndExtn{}
 			}
 
-			if len(oob) != 0 {
+			// An extension header holds at most 1024 octets (its length field is
+			// one octet, in units of 4). A packet whose end-to-end extension has no
+			// room left is forwarded without the receive timestamp option.
+			e2eLen := 0
+			if hasE2E {
+				e2eLen = (int(e2eLayer.ExtLen) + 1) * slayers.LineLen
+			}
+			if len(oob) != 0 && e2eLen+2+len(oob)+slayers.LineLen <= 256*slayers.LineLen {
 				tsOpt.OptType = scion.OptTypeTimestamp
 				tsOpt.OptData = oob
 				tsOpt.OptAlign[0] = 0
